@@ -52,7 +52,16 @@ func runC01(p *Program, r *Result) {
 	uw := unwraps[0]
 	recv := short(tb.Term(uw.Common().Value).String())
 	loops := loopOver(dec, func(v ssa.Value) bool { return v == dec.Params[1] })
-	okOrder := recv == "Elem(P2, (RangeIdx#1 + 1))" && len(loops) == 1 && loops[0].inLoop(uw.Block())
+	// (several loops may range over the identities — an up-front nil check, say; the one around
+	// the call counts)
+	var around []*RangeLoop
+	for _, l := range loops {
+		if l.inLoop(uw.Block()) {
+			around = append(around, l)
+		}
+	}
+	loops = around
+	okOrder := (recv == "Elem(P2, (RangeIdx#1 + 1))" || strings.HasPrefix(recv, "Elem(P2, (RangeIdx#") && strings.HasSuffix(recv, " + 1))")) && len(loops) == 1 && loops[0].inLoop(uw.Block())
 	r.Check(okOrder, dec.String(), "call:Unwrap:receiver", r.pos(uw), "identities[i] in an ascending range loop over all identities",
 		"Unwrap is invoked on "+recv+", not on identities[i] of an ascending loop over the identities parameter")
 	// R01.1b: what is offered
@@ -331,6 +340,10 @@ func checkSentinelLoop(p *Program, r *Result, fn *ssa.Function, callee string) {
 			}
 			for k, s := range b.Succs {
 				if _, isIf := b.Instrs[len(b.Instrs)-1].(*ssa.If); !isIf {
+					// a plain block behind the nil test (`fileKey = unwrapped; break`)
+					if _, isNil := errFactFor(tb.FactsAt(b), call.Value(), true); isNil && !loop.inLoop(s) {
+						okSuccess = true
+					}
 					continue
 				}
 				facts := tb.FactsOnEdge(b, k)
